@@ -1,7 +1,14 @@
 package vkit
 
 import (
+	"crypto/ecdh"
+	"crypto/ecdsa"
+	"crypto/elliptic"
+	"crypto/rand"
+	"crypto/rsa"
+	"crypto/x509"
 	"fmt"
+	"sync"
 	"runtime/debug"
 	"time"
 
@@ -95,3 +102,36 @@ func Short(b []byte) string {
 
 // TS0 returns the current time (helper for one-line expressions).
 func TS0() time.Time { return time.Now() }
+
+var (
+	rsaOnce sync.Once
+	rsaPkix []byte
+)
+
+// AlienPkix returns a well-formed PKIX public key that is NOT an Ed25519 key:
+// kind is "ecdsa", "x25519" or "rsa" (the RSA key is generated once per process).
+func AlienPkix(kind string) []byte {
+	var pub any
+	switch kind {
+	case "ecdsa":
+		k, _ := ecdsa.GenerateKey(elliptic.P256(), rand.Reader)
+		pub = &k.PublicKey
+	case "x25519":
+		k, _ := ecdh.X25519().GenerateKey(rand.Reader)
+		pub = k.PublicKey()
+	default:
+		rsaOnce.Do(func() {
+			k, _ := rsa.GenerateKey(rand.Reader, 1024)
+			rsaPkix, _ = x509.MarshalPKIXPublicKey(&k.PublicKey)
+		})
+		return append([]byte(nil), rsaPkix...)
+	}
+	b, err := x509.MarshalPKIXPublicKey(pub)
+	if err != nil {
+		panic(err)
+	}
+	return b
+}
+
+// AlienKinds lists the kinds AlienPkix knows.
+var AlienKinds = []string{"ecdsa", "x25519", "rsa"}
